@@ -39,7 +39,8 @@ pub fn crash(depth: usize) -> Value {
     // is flushed as a RowSet of its own): all of them must become visible through ONE manifest record
     let big: String = format!("insert into t values {}", (1000..3500).map(|k| format!("({k},{})", k % 7)).collect::<Vec<_>>().join(","));
     let big_rows: Rows = { let mut r = t0.clone(); r.extend((1000..3500).map(|k: i64| vec![k.to_string(), (k % 7).to_string()])); r };
-    let cases = { let mut c = cases; c.push((big.as_str(), big_rows, Some(u0.clone()), false)); c };
+    // a compaction pass as the interrupted operation (t's two RowSets are merged into one): no row may be lost or doubled
+    let cases = { let mut c = cases; c.push((big.as_str(), big_rows, Some(u0.clone()), false)); c.push(("@compact", t0.clone(), Some(u0.clone()), false)); c };
 
     let after: Vec<String> = vec!["select k, v from t".into(), "select k, v from u".into(), "select a from w".into(), "insert into t values (100,1000)".into(), "select k, v from t".into()];
     let again: Vec<String> = vec!["select k, v from t".into(), "select k, v from u".into(), "select a from w".into()];
@@ -50,7 +51,7 @@ pub fn crash(depth: usize) -> Value {
         let delta = (l1 - l0) as usize;
         // records with several entries (a DELETE over two RowSets, a DROP of a table with data) are cut at EVERY byte at every
         // depth: the positions between two entries are the ones where an unfinished transaction looks like a clean log
-        let multi_entry = stmt.starts_with("delete from t where k >= 3") || stmt.starts_with("drop table");
+        let multi_entry = stmt.starts_with("delete from t where k >= 3") || stmt.starts_with("drop table") || *stmt == "@compact";
         let stride = if multi_entry { 1 } else { match depth { 0 | 1 => (delta / 12).max(1), 2 => (delta / 60).max(1), _ => 1 } };
         let mut cuts: Vec<usize> = (0..=delta).step_by(stride).collect();
         for c in [1usize, 2, delta.saturating_sub(1), delta.saturating_sub(2), delta] { if !cuts.contains(&c) && c <= delta { cuts.push(c); } }
